@@ -104,6 +104,20 @@ pub fn make_scratch_dir(name: &str) -> PathBuf {
         .duration_since(std::time::UNIX_EPOCH)
         .map(|d| d.subsec_nanos())
         .unwrap_or(0);
+    // scratch directories of runs that were killed: kv-<prop>-<pid>-<nanos> whose process is gone
+    if let Ok(rd) = std::fs::read_dir(&base) {
+        for e in rd.flatten() {
+            let n = e.file_name().to_string_lossy().to_string();
+            let parts: Vec<&str> = n.split('-').collect();
+            if parts.len() == 4 && parts[0] == "kv" && parts[1].starts_with('C') {
+                if let Ok(pid) = parts[2].parse::<u32>() {
+                    if !std::path::Path::new(&format!("/proc/{pid}")).exists() {
+                        let _ = std::fs::remove_dir_all(e.path());
+                    }
+                }
+            }
+        }
+    }
     let p = base.join(format!("{name}-{nanos}"));
     std::fs::create_dir_all(&p).expect("create scratch dir");
     p
